@@ -125,6 +125,10 @@ func runC18(c *core.Check) {
 	c.Rule("C18.inject", "InjectNested appends nested objects and edges back and re-attaches root children with paired updates")
 	c.Rule("C18.order", "LayoutNested defers restoreOrder before extracting; extracted/extractedOrder are updated together; injection follows extractedOrder")
 	c.Rule("C18.near-sets", "d2near sets partition d2ast.NearConstantsArray")
+	c.Rule("C18.parallel", "slices indexed in lock-step (B[i] inside a range over A) are appended to in pairs from the same source")
+	c.Rule("C18.near-all", "d2near.Layout places and re-attaches every constant-near graph it was given")
+	checkParallelSlices(c, "C18.parallel", "d2layouts")
+	checkNearAll(c, "C18.near-all")
 	ex := mustFunc(c, "d2layouts", "", "ExtractSubgraph")
 	if ex != nil {
 		info := ex.Pkg.TypesInfo
@@ -736,5 +740,237 @@ func checkInfReset(c *core.Check, rule string) {
 		sort.Strings(missing)
 		c.Decide(len(infVars) >= 4 && len(missing) == 0, rule, "boundingBox:inf-reset", bb.Decl.Pos(), fmt.Sprintf("%d accumulators reset at top level", len(infVars)),
 			fmt.Sprintf("accumulators %v start at ±Inf and are not reset by an unconditional top-level test: when nothing contributes along that axis the next near shape is placed at ±Inf", missing))
+	}
+}
+
+// ---- parallel slices -------------------------------------------------------------------------------
+
+// checkParallelSlices: in every function of the package, when a slice B is indexed by the key of a range
+// over another slice variable A (B[i] in `for i … := range A`), A and B are parallel. Every append to A must
+// sit next to an append to B in the same block, and when whole slices are appended (append(A, xs...),
+// append(B, ys...)) xs and ys must be results of the same call (the nearest preceding definition of both).
+func checkParallelSlices(c *core.Check, rule, rel string) {
+	pk := c.P.Pkg(rel)
+	if pk == nil {
+		c.Broken("%s not loaded", rel)
+		return
+	}
+	npairs := 0
+	calleePairs := map[*core.FuncInfo][][2]int{}
+	funcs := c.P.Funcs(pk)
+	// two passes: the first discovers result pairs of callees, the second checks every function
+	for pass := 0; pass < 2; pass++ {
+		if pass == 1 {
+			npairs = 0
+		}
+		for _, fi := range funcs {
+			info := fi.Pkg.TypesInfo
+			pairs := map[[2]types.Object]bool{}
+			if pass == 1 {
+				res := fi.Obj.Type().(*types.Signature).Results()
+				for _, ij := range calleePairs[fi] {
+					if ij[0] < res.Len() && ij[1] < res.Len() && res.At(ij[0]).Name() != "" {
+						pairs[[2]types.Object{res.At(ij[0]), res.At(ij[1])}] = true
+					}
+				}
+			}
+			ast.Inspect(fi.Decl.Body, func(n ast.Node) bool {
+				rs, ok := n.(*ast.RangeStmt)
+				if !ok || rs.Key == nil {
+					return true
+				}
+				a := core.ObjOf(info, rs.X)
+				k := core.ObjOf(info, rs.Key)
+				if a == nil || k == nil {
+					return true
+				}
+				if _, isSlice := a.Type().Underlying().(*types.Slice); !isSlice {
+					return true
+				}
+				ast.Inspect(rs.Body, func(m ast.Node) bool {
+					ix, ok := m.(*ast.IndexExpr)
+					if !ok || core.ObjOf(info, ix.Index) != k {
+						return true
+					}
+					b := core.ObjOf(info, ix.X)
+					if b == nil || b == a {
+						return true
+					}
+					if _, isSlice := b.Type().Underlying().(*types.Slice); isSlice {
+						pairs[[2]types.Object{a, b}] = true
+					}
+					return true
+				})
+				return true
+			})
+			// the pair may be two results of one call to a function of this package: its named results are parallel too
+			for pr := range pairs {
+				da, db := defsOf(fi, pr[0]), defsOf(fi, pr[1])
+				for _, x := range da {
+					for _, y := range db {
+						if x.Stmt == y.Stmt && x.Multi && y.Multi {
+							if call, ok := x.Rhs.(*ast.CallExpr); ok {
+								if callee := c.P.Decl(core.CalleeOf(info, call)); callee != nil && callee.Pkg == fi.Pkg {
+									calleePairs[callee] = append(calleePairs[callee], [2]int{x.Index, y.Index})
+								}
+							}
+						}
+					}
+				}
+			}
+			appendTo := func(st ast.Stmt, o types.Object) (*ast.CallExpr, bool) {
+				as, ok := st.(*ast.AssignStmt)
+				if !ok || len(as.Lhs) != 1 || len(as.Rhs) != 1 || core.ObjOf(info, as.Lhs[0]) != o {
+					return nil, false
+				}
+				call, ok := ast.Unparen(as.Rhs[0]).(*ast.CallExpr)
+				if !ok || exprStr(call.Fun) != "append" || len(call.Args) < 2 || core.ObjOf(info, call.Args[0]) != o {
+					return nil, false
+				}
+				return call, true
+			}
+			nearestDef := func(o types.Object, before token.Pos) ast.Node {
+				var best ast.Node
+				for _, d := range defsOf(fi, o) {
+					if d.Stmt.Pos() < before && (best == nil || d.Stmt.Pos() > best.Pos()) {
+						best = d.Stmt
+					}
+				}
+				return best
+			}
+			for pr := range pairs {
+				a, b := pr[0], pr[1]
+				ast.Inspect(fi.Decl.Body, func(n ast.Node) bool {
+					blk, ok := n.(*ast.BlockStmt)
+					if !ok {
+						return true
+					}
+					for i, st := range blk.List {
+						ca, ok := appendTo(st, a)
+						if !ok || pass == 0 {
+							continue
+						}
+						npairs++
+						key := fmt.Sprintf("%s:%s‖%s", fname(fi), a.Name(), b.Name())
+						var cb *ast.CallExpr
+						for _, j := range []int{i + 1, i - 1} {
+							if j >= 0 && j < len(blk.List) {
+								if x, ok := appendTo(blk.List[j], b); ok {
+									cb = x
+								}
+							}
+						}
+						if cb == nil {
+							c.Fail(rule, key, st.Pos(), fmt.Sprintf("%s is appended to without a matching append to %s next to it: the two slices are read in lock-step, so later entries pair the wrong elements", a.Name(), b.Name()))
+							continue
+						}
+						if ca.Ellipsis.IsValid() != cb.Ellipsis.IsValid() || len(ca.Args) != len(cb.Args) {
+							c.Fail(rule, key, st.Pos(), "the paired appends add a different number of elements")
+							continue
+						}
+						if !ca.Ellipsis.IsValid() {
+							c.Pass(rule, key, st.Pos(), "element-wise paired appends")
+							continue
+						}
+						xa, xb := core.ObjOf(info, ca.Args[1]), core.ObjOf(info, cb.Args[1])
+						da, db := ast.Node(nil), ast.Node(nil)
+						if xa != nil && xb != nil {
+							da, db = nearestDef(xa, st.Pos()), nearestDef(xb, st.Pos())
+						}
+						// parameters/results of the enclosing function have no definition statement: accept only if both have none
+						c.Decide(xa != nil && xb != nil && da == db, rule, key, st.Pos(), "both appended slices come from the same statement",
+							fmt.Sprintf("%s and %s were last assigned by different statements: the entries appended to %s do not describe the entries appended to %s (connections are re-pointed to another connection's endpoints)", exprStr(ca.Args[1]), exprStr(cb.Args[1]), b.Name(), a.Name()))
+					}
+					return true
+				})
+			}
+		}
+	}
+	if npairs < 3 {
+		c.Fail(rule, "pairs", token.NoPos, fmt.Sprintf("only %d paired appends found in %s", npairs, rel))
+	}
+}
+
+// checkNearAll: in d2near.Layout every loop that moves or re-attaches near graphs ranges over the function's
+// []*Graph parameter itself, or over a slice that is only ever built by appending that parameter's range values.
+func checkNearAll(c *core.Check, rule string) {
+	fi := mustFunc(c, "d2layouts/d2near", "", "Layout")
+	if fi == nil {
+		return
+	}
+	info := fi.Pkg.TypesInfo
+	var param types.Object
+	sig := fi.Obj.Type().(*types.Signature)
+	for i := 0; i < sig.Params().Len(); i++ {
+		if types.TypeString(sig.Params().At(i).Type(), func(*types.Package) string { return "" }) == "[]*Graph" {
+			param = sig.Params().At(i)
+		}
+	}
+	if param == nil {
+		c.Broken("d2near.Layout has no []*Graph parameter")
+		return
+	}
+	var lossless func(o types.Object, depth int) bool
+	lossless = func(o types.Object, depth int) bool {
+		if o == param {
+			return true
+		}
+		if depth > 3 || o == nil {
+			return false
+		}
+		if _, isSlice := o.Type().Underlying().(*types.Slice); !isSlice {
+			return false
+		}
+		ds := defsOf(fi, o)
+		if len(ds) == 0 {
+			return false
+		}
+		for _, d := range ds {
+			if d.Rhs == nil {
+				if vs, ok := d.Stmt.(*ast.ValueSpec); ok && len(vs.Values) == 0 {
+					continue
+				}
+				return false
+			}
+			call, ok := ast.Unparen(d.Rhs).(*ast.CallExpr)
+			if !ok || exprStr(call.Fun) != "append" || core.ObjOf(info, call.Args[0]) != o || len(call.Args) != 2 {
+				return false
+			}
+			// appended value: range value of a loop over a lossless collection, not under a `seen`-style filter on a map
+			v := core.ObjOf(info, call.Args[1])
+			okSrc := false
+			ast.Inspect(fi.Decl.Body, func(n ast.Node) bool {
+				rs, ok := n.(*ast.RangeStmt)
+				if ok && rs.Value != nil && core.ObjOf(info, rs.Value) == v && rs.Body.Pos() <= d.Stmt.Pos() && d.Stmt.End() <= rs.Body.End() {
+					if lossless(core.ObjOf(info, rs.X), depth+1) {
+						okSrc = true
+					}
+				}
+				return true
+			})
+			if !okSrc {
+				return false
+			}
+		}
+		return true
+	}
+	n := 0
+	ast.Inspect(fi.Decl.Body, func(nd ast.Node) bool {
+		rs, ok := nd.(*ast.RangeStmt)
+		if !ok || rs.Value == nil {
+			return true
+		}
+		tv, ok := info.Types[rs.X]
+		if !ok || types.TypeString(tv.Type, func(*types.Package) string { return "" }) != "[]*Graph" {
+			return true
+		}
+		n++
+		src := core.ObjOf(info, rs.X)
+		c.Decide(lossless(src, 0), rule, fmt.Sprintf("Layout:loop-over:%s", exprStr(rs.X)), rs.Pos(), "ranges over every graph handed to Layout",
+			"this loop ranges over a collection that need not contain every constant-near graph given to Layout (e.g. a map keyed by position keeps one graph per position): the others were already extracted from the board and are never re-attached")
+		return true
+	})
+	if n < 2 {
+		c.Fail(rule, "Layout:loops", fi.Decl.Pos(), fmt.Sprintf("found %d loops over near graphs, expected the parent-fixing, placing and re-attaching loops", n))
 	}
 }
